@@ -8,7 +8,8 @@ VARIABLES l, caseN, kind, obs
 vars == <<l, caseN, kind, obs>>
 Ops(kd, o) == << <<"C04_TransportOrder", T_Order(o)>>, <<"C04_TransportNoLoss", T_NoLoss(o)>>,
                  <<"C13_TransportClosed", T_ClosedRefuses(o, kd)>>, <<"C13_TransportCloseNoticed", T_CloseNoticed(o)>>,
-                 <<"C14_TransportCloseNoticed", T_CloseNoticed(o)>>,
+                 <<"C14_TransportCloseNoticed", T_CloseNoticed(o)>>, <<"C14_TransportSocketReleased", T_SocketReleased(o)>>,
+                 <<"C13_TransportSocketReleased", T_SocketReleased(o)>>,
                  <<"C09_TransportEncryption", T_EncryptionAgrees(o)>> >>
 Report(n, kd, o) == LET ops == Ops(kd, o) IN \A i \in 1 .. Len(ops) : ops[i][2] \/ PrintT(<<"BAD", n, ops[i][1]>>)
 CaseEnds(i) == i = Len(Trace) \/ Trace[i + 1].k = "cfg"
